@@ -535,6 +535,11 @@ inductive Op where
   /-- `ShiftMatchingTreasures` without filters: index type, order, `HowMany = q.limit` (0: all),
       optional time window; `q.from_` is not used -/
   | shiftMatch (q : Query)
+  /-- `ShiftByKeys`: the named records, those that exist, are handed out and deleted -/
+  | shiftKeys (ks : List String)
+  /-- `PatchTreasures` with `CreateIfNotExist` (seed `{}`): a missing or void key becomes a body whose
+      counter is the increment; a body is patched; anything else is a type mismatch -/
+  | patchCreate (k : String) (m : ExpMeta)
   deriving Repr
 
 def setPair (p : Slot → Pair) (s : Slot) (v : Pair) : Slot → Pair :=
@@ -626,6 +631,16 @@ def stepPatch (cfg : Cfg) (st : St) (k : String) (m : ExpMeta) : St :=
   match findKey k st.store with
   | none => st
   | some o => if o.ct == .bytes then stepSet cfg st (patchReq o m) else st
+
+def stepPatchCreate (cfg : Cfg) (st : St) (k : String) (m : ExpMeta) : St :=
+  let fresh : SetReq := { key := k, ct := .bytes, val := 1, created := 0, updated := 0,
+                          expire := (match m with | .setTo e => e | _ => 0), clearExpire := m == .clear }
+  match findKey k st.store with
+  | none => stepSet cfg st fresh
+  | some o =>
+    if o.ct == .bytes then stepSet cfg st (patchReq o m)
+    else if o.ct == .void then stepSet cfg st fresh
+    else st
 
 /-- `l` plus those records of `b` whose key `l` does not hold (`beacon.Add` of each) -/
 def addAll (l b : List Rec) : List Rec :=
@@ -750,6 +765,8 @@ def step (cfg : Cfg) (st : St) : Op → St
   | .patch k m => stepPatch cfg st k m
   | .patchExpired m => stepPatchExpired cfg st m
   | .shiftMatch q => stepShiftMatch cfg st q
+  | .shiftKeys ks => ks.foldl stepDel st
+  | .patchCreate k m => stepPatchCreate cfg st k m
 
 def run (cfg : Cfg) (h : List Op) : St := h.foldl (step cfg) St.init
 
